@@ -231,10 +231,8 @@ theorem deMorgan_step_sound {t r : Tree} {tr : TrMap} (pre : DMPre t) (hso : Sor
     negation of a join remains (every negation in `t'` points at a surface or at `True`).
     Proof: induction over the node ids in increasing order with the explicit old→new id-map
     invariant `TrOk`/`DMInv`; it does not depend on which nodes the first pass decides to keep.
-    NOT covered (no theorem): that `.ok` is always reached under the precondition, i.e. that none
-    of the compiled-out `CELER_ASSERT`s of `DeMorganSimplifier` can fail (the "TODO: is it really
-    correct in all cases" of `should_insert_join`); the model answers `.error "assert"` there, which
-    tools/checks/c10.py treats as a broken correspondence (never observed). -/
+    That `.ok` is always reached under the precondition is `deMorgan_defined`; both together:
+    `deMorgan_total`. -/
 theorem deMorgan_preserves {t t' : Tree} (pre : DMPre t) (inv : TreeInv t)
     (hsmall : 3 * t.size + 2 ≤ invalid) (h : transformNegatedJoins t = .ok t') :
     TreeInv t' ∧ t'.volumes.length = t.volumes.length ∧
